@@ -20,7 +20,7 @@ EXPLANATION = ("Harness c09.prog: an expression e1 = op1(root, X) (op1 from the 
 STUBS = []
 OUTSIDE = ["async pipelines (C10)", "expression depth > 2", "operands of types other than int / tuple / str (family E: containers as inputs of pipe / len only)",
            "symbolic second operands of non-linear operators (the Parameter operand is realised from [-2,2], constants from a pool)",
-           "__matmul__ (no operand type in the sandbox supports it)",
+
            "operators applied to the result of .rx.where (it returns a bound function, not an rx)"]
 ASSUMPTIONS = ["root value symbolic int in [-4,4]; parameter value picked from [-2,2]; expression construction evaluates eagerly in "
                "param, so an expression is only built on inputs for which the plain expression is defined"]
@@ -46,6 +46,8 @@ HELP = [
     ('is_not', lambda e, y: e.rx.is_not(None), lambda v, w: v is not None),
     ('getitem', lambda e, y: rx(SEQ)[e], lambda v, w: SEQ[v]),
     ('method', lambda e, y: e.bit_length(), lambda v, w: v.bit_length()),
+    ('attr_real', lambda e, y: e.real, lambda v, w: v.real),            # attribute access recorded as an operation
+    ('attr_num', lambda e, y: e.numerator, lambda v, w: v.numerator),
     ('len_map', lambda e, y: rx(SEQ).rx.map(lambda i, k: i + k, e).rx.len(), lambda v, w: len([i + v for i in SEQ])),
     # the unselected branch of where() is a reactive expression that raises on the current inputs: it must not be evaluated
     ('where_lazy', lambda e, y: (e != 0).rx.where(100 // e, -7), lambda v, w: (100 // v) if v != 0 else -7),
@@ -80,7 +82,7 @@ def _node(op):
 
 
 NONLIN = {'where_lazy', 'where_lazy2', 'mul', 'truediv', 'floordiv', 'mod', 'pow', 'lshift', 'rshift', 'divmod', 'and', 'or', 'xor', 'invert', 'round',
-          'trunc', 'floor', 'ceil', 'getitem', 'method', 'len_map', 'abs'}
+          'trunc', 'floor', 'ceil', 'getitem', 'method', 'len_map', 'abs', 'attr_real', 'attr_num'}
 
 
 def _nonlinear(op):
@@ -339,11 +341,69 @@ def table(tier):
     names |= {'__r%s__' % n[2:-2] for n in names if n[2:-2] not in ('lt', 'le', 'gt', 'ge', 'eq', 'ne')}
     names |= {'__%s__' % n for n, _ in UN} | {'__getitem__'}
     arith = {n for n in have if n[2:-2].lstrip('r') in {m[2:-2].lstrip('r') for m in names} or n in names}
-    skip = {'__matmul__', '__rmatmul__', '__rdiv__', '__contains_'}
+    skip = {'__matmul__', '__rmatmul__', '__rdiv__', '__contains_'}        # matmul: family G (own operand type)
     missing = sorted(n for n in have if (n.startswith('__r') or n in names) and n not in names and n not in skip
                      and n not in ('__repr__', '__reduce__', '__reduce_ex__', '__round__'))
-    return dict(name='operator_table', label='C09.table_complete', status='ok' if not missing else 'error',
-                error='operator dunders of rx not exercised by the harness: %s' % missing, exercised=sorted(names), queries=0)
+    row = dict(name='operator_table', label='C09.table_complete', status='ok' if not missing else 'error',
+               error='operator dunders of rx not exercised by the harness: %s' % missing, exercised=sorted(names), queries=0)
+    absent = [n for n in REQUIRED if n not in have]
+    if absent and not missing:
+        row.update(status='violation', info=dict(absent=absent), label='C09.reflected_supported',
+                   replay=dict(module='harness.c09', fn='replay_dunder', args=dict(name=absent[0]), label='C09.reflected_supported', property='C09'))
+    return row
+
+
+# every binary operator Python can dispatch to its right operand, and the forward forms
+REQUIRED = ['__%s%s__' % (r, n) for n in ('add', 'sub', 'mul', 'matmul', 'truediv', 'floordiv', 'mod', 'divmod', 'pow', 'lshift', 'rshift',
+                                          'and', 'xor', 'or') for r in ('', 'r')]
+
+
+def replay_dunder(name):
+    import param.reactive as R
+    check('C09.reflected_supported', name in vars(R.rx), dict(absent=name))
+
+
+class Mat:
+    """an operand type that supports @ from both sides"""
+
+    def __init__(self, v):
+        self.v = v
+
+    def __matmul__(self, o):
+        if hasattr(type(o), 'rx'):
+            return NotImplemented           # let Python dispatch to the reactive expression's reflected method
+        return ('mm', self.v, getattr(o, 'v', o))
+
+    def __rmatmul__(self, o):
+        return ('rmm', getattr(o, 'v', o), self.v)
+
+
+def matprog(side: int, a0: int, h1: int, v1: int, h2: int, v2: int, h3: int, v3: int) -> None:
+    """e = root @ M, M @ root, 3 @ root (dispatches to rx.__rmatmul__) over a root holding a Mat; histories of updates / reads"""
+    side = pick(side, 0, 2)
+    a0 = pick(a0, 0, 2)
+    r = rx(Mat(a0))
+    m = Mat(7)
+    b = _ev(lambda: (r @ m) if side == 0 else ((m @ r) if side == 1 else (3 @ r)))
+    info = {'matmul': True, 'side': side}
+    check('C09.reflected_supported' if side else 'C09.builds', b[0] == 'ok' and hasattr(b[1], 'rx'), dict(info, built=b[0], exc=b[1] if b[0] == 'exc' else None))
+    e = b[1]
+    cur = a0
+    for h, v in ((h1, v1), (h2, v2), (h3, v3)):
+        h = pick(h, 0, 1)
+        if h == 0:
+            v = pick(v, 0, 2)
+            r.rx.value = Mat(v)
+            cur = v
+        else:
+            exp = ('mm', cur, 7) if side == 0 else (('mm', 7, cur) if side == 1 else ('rmm', 3, cur))
+            got = _ev(lambda: e.rx.value)
+            check('C09.value', got == ('ok', exp), dict(info, got=repr(got), exp=repr(exp)))
+    exp = ('mm', cur, 7) if side == 0 else (('mm', 7, cur) if side == 1 else ('rmm', 3, cur))
+    check('C09.value', _ev(lambda: e.rx.value) == ('ok', exp), dict(info, final=True))
+
+
+matprog.ranges = lambda consts: dict(side=(0, 2), a0=(0, 2), h1=(0, 1), h2=(0, 1), h3=(0, 1), v1=(0, 2), v2=(0, 2), v3=(0, 2))
 
 
 def extra(tier):
@@ -375,7 +435,8 @@ def shards(tier):
                 c.update(k=3, h4=0, v4=0)
             out.append(dict(name='A_op%d_x%d' % (op1, xk), module='harness.c09', fn='prog', consts=c, budget_s=45 if q else 300))
     # (B) derived expressions with late derivation: all histories of length 3
-    for op1 in ((0, 3) if q else (0, 2, 3, len(BIN) + 3)):
+    ATTR = 2 * len(BIN) + len(UN) + 11          # e1 = root.real: an attribute-access node that is derived from and read again
+    for op1 in ((0, 3, ATTR) if q else (0, 2, 3, len(BIN) + 3, ATTR)):
         for op2 in (OP2_QUICK if q else range(N1)):
             for xk in (1,) if q else (1, 2):
                 for yk in ((1,) if q else (0, 1)):
@@ -397,6 +458,9 @@ def shards(tier):
     # (F) a .rx.watch callback that assigns another input
     for route in range(5):
         out.append(dict(name='F_r%d' % route, module='harness.c09', fn='cbprog', consts=dict(route=route), budget_s=45 if q else 300))
+    # (G) the @ operator with an operand type that supports it from both sides
+    for side in range(3):
+        out.append(dict(name='G_s%d' % side, module='harness.c09', fn='matprog', consts=dict(side=side), budget_s=30 if q else 120))
     # (E) container-valued inputs
     for src in (0, 1):
         for v1 in range(len(CONT)):
